@@ -79,7 +79,13 @@ func (o *Out) Write(evs ...Event) {
 // WriteScenario writes one scenario as one line: configuration, the behaviour
 // TLC expected (if the scenario was exported by TLC) and the recorded history.
 func (o *Out) WriteScenario(id int, fam, src string, cfg map[string]any, exp []any, evs []Event) {
-	rec := Event{"scn": id, "fam": fam, "src": src, "cfg": cfg, "hasexp": exp != nil, "h": evs}
+	o.WriteScenarioX(id, fam, src, cfg, exp, evs, true)
+}
+
+// WriteScenarioX also records the outcome of the Flow.Run differential (engine family):
+// flowrun = the convenience method Flow.Run behaved exactly like flyt.Run on the same scenario.
+func (o *Out) WriteScenarioX(id int, fam, src string, cfg map[string]any, exp []any, evs []Event, flowrun bool) {
+	rec := Event{"scn": id, "fam": fam, "src": src, "cfg": cfg, "hasexp": exp != nil, "h": evs, "flowrun": flowrun}
 	if exp != nil {
 		rec["exp"] = exp
 	} else {
@@ -389,7 +395,10 @@ func (r *Registry) Err(tok int) error {
 		return e
 	}
 	var e error
-	switch tok % 3 {
+	switch tok % 4 {
+	case 3:
+		// several errors joined: each of them, and the joined value, must stay matchable
+		e = &joinedErr{err: errors.Join(errors.New(fmt.Sprintf("joined a %d", tok)), errors.New(fmt.Sprintf("joined b %d", tok)))}
 	case 0:
 		e = errors.New(fmt.Sprintf("sentinel error %d", tok))
 	case 1:
@@ -399,6 +408,17 @@ func (r *Registry) Err(tok int) error {
 	}
 	r.errs[tok] = e
 	return e
+}
+
+type joinedErr struct{ err error }
+
+func (j *joinedErr) Error() string { return "joined: " + j.err.Error() }
+func (j *joinedErr) Unwrap() error { return j.err }
+func (j *joinedErr) parts() []error {
+	if u, ok := j.err.(interface{ Unwrap() []error }); ok {
+		return u.Unwrap()
+	}
+	return nil
 }
 
 type wrapErr struct {
@@ -429,6 +449,16 @@ func (r *Registry) Matches(err error, tok int) bool {
 		return errors.As(err, &t) && errors.Is(err, x)
 	case *wrapErr:
 		return errors.Is(err, x) && errors.Is(err, x.inner)
+	case *joinedErr:
+		if !errors.Is(err, x) {
+			return false
+		}
+		for _, p := range x.parts() {
+			if !errors.Is(err, p) {
+				return false
+			}
+		}
+		return true
 	default:
 		return errors.Is(err, e)
 	}
